@@ -36,11 +36,11 @@ PROPS["C17"] = {
 
 PROPS["C05"] = {
     "technique": "Verus contracts on the extracted error-handling functions with a prophecy model of the write-once error cell",
-    "text": "Unbounded deductive proof of the sequential content: every ConnectionError any handle returns equals the conversion of the cell's single winner; once the driver has handled an error every later call returns it and touches nothing; conn.close is called at most once, only for errors h3 itself detected, with exactly that error's code. PARTIAL: the schedule part of the statement (wake after store; the check/register window, i.e. the lost wake-up) is NOT decided — effects of &self calls on std atomics are invisible to contracts and Kani has no threads; a change that only reorders check/register is not detected.",
+    "text": "Unbounded deductive proof of the sequential content: every ConnectionError any handle returns equals the conversion of the cell's single winner; once the driver has handled an error every later call returns it and touches nothing; conn.close is called at most once, only for errors h3 itself detected, with exactly that error's code. The signalling half of the wake-up protocol is decided in program order: set_conn_error_and_wake has stored the error before it wakes the driver. PARTIAL: the rest of the schedule part of the statement (the driver's check/register window, i.e. the lost wake-up under all interleavings) is NOT decided — effects of &self calls on std atomics are invisible to contracts and Kani has no threads; a change that only reorders check/register, or drops the repeated look into the cell, is not detected.",
     "note": "OnceLock modelled by prophecy (winner() is an immutable attribute of the cell; get/get_or_init only ever reveal it), AtomicWaker/AtomicBool without effect in contracts, transport close() recorded in a ghost log. Schedules (interleavings of shared-state operations) are outside this family: listed as unchecked assumption.",
     "design_ref": "§4 C05, §6",
     "trusted_base": COMMON_TB + ["OnceLock prophecy shim, AtomicWaker/AtomicBool shims (inc/shared_state_shim.rs)", "error enums extracted from /repo (inc/errors.rs); dyn Error payloads replaced by an opaque type (R0)"],
-    "assumptions": ["UNCHECKED: set_conn_error_and_wake wakes after it stores; no wake falls between the driver's check and its waker registration (lost wake-up)", "impl Drop for server::Connection closes again with H3_NO_ERROR (outside the contracts; quinn ignores a second close)"],
+    "assumptions": ["UNCHECKED: no wake falls unnoticed between the driver's look into the cell and its waker registration (poll_connection_error looks first, registers second; each driver poll runs it at least twice, so a later look follows the first registration — argued over interleavings, not proved)", "store-before-wake is decided in program order only; that it excludes a lost wake-up under every interleaving is the standard AtomicWaker argument", "impl Drop for server::Connection closes again with H3_NO_ERROR (outside the contracts; quinn ignores a second close)"],
 }
 PROPS["C07"] = {
     "technique": "Verus contracts on the extracted request-level error paths; the escalation entry carries the precondition is_connection_scoped(cause)",
@@ -70,11 +70,11 @@ PROPS["C09"] = {
 
 PROPS["C10"] = {
     "technique": "Verus contracts: running-size loop of decode_stateless against spec_section_size, encode_stateless' returned size, and the send/receive comparison sites over the transport's ghost log",
-    "text": "Unbounded deductive proof: Ok(d) from decode_stateless implies d.mem_size == Σ(|name|+|value|+32) <= max and HeaderTooLong(n) is answered exactly when the running size first exceeds max (so size == limit is accepted, limit+1 refused, for every limit incl. 0 and 2^62-1); no u64 overflow for inputs < 2^50 bytes; encode_stateless returns that size; at the three send sites at most one HEADERS frame reaches the stream's ghost log and only if the size is <= the peer's advertised limit (2^62-1 while the peer's SETTINGS have not arrived), otherwise HeaderTooBig and nothing is handed over; an oversized request yields HeaderTooBig after exactly one 431 attempt through the same limit check and no connection error.",
+    "text": "Unbounded deductive proof: Ok(d) from decode_stateless implies d.mem_size == Σ(|name|+|value|+32) <= max and HeaderTooLong(n) is answered exactly when the running size first exceeds max (so size == limit is accepted, limit+1 refused, for every limit incl. 0 and 2^62-1); no u64 overflow for inputs < 2^50 bytes; encode_stateless returns that size; at the three send sites at most one HEADERS frame reaches the stream's ghost log and only if the size is <= the peer's advertised limit (2^62-1 while the peer's SETTINGS have not arrived), otherwise HeaderTooBig and nothing is handed over (send_request: the limit is the client's understanding of the peer's settings after the wait for a stream, when the frame is handed over — the passage of time across that wait is modelled); an oversized request yields HeaderTooBig after exactly one 431 attempt through the same limit check and no connection error.",
     "note": "prefix_int/prefix_string/static table by their contracts (Kani C15/C11 harnesses); OnceLock by prophecy; await-erasure (R4); http builders; the receive sites recv_response / poll_recv_trailers carry their size clauses in unit error_scope ([C07.toobig*]).",
     "design_ref": "§4 C10",
     "trusted_base": COMMON_TB + ["inc/qpack_spec.rs (RFC 9204 / RFC 9114 §4.2.2 spec functions and 45 lemmas)", "axioms: Huffman round trip / 5-bit shortest code (C15), static entries <= 100 bytes, Cow deref", "callee contracts ASSUMED-FROM-UNIT (kani c15_*, c11_static_*, error_scope, headers)"],
-    "assumptions": ["input field sections shorter than 2^50 bytes", "usize is 64 bits"],
+    "assumptions": ["input field sections shorter than 2^50 bytes", "usize is 64 bits", "ASSUMED vp_suspended(): while send_request waits for a stream, the settings cell may only go from empty to its one eventual value; other awaits treat shared cells as stable (R4)"],
 }
 PROPS["C11"] = {
     "technique": "Verus contracts: field-line codecs, HeaderPrefix, decode_stateless/encode_stateless against an RFC 9204 §4.5 spec function; Kani for the static table (vs. an independent App. A transcription) and the first-byte dispatch",
@@ -139,7 +139,7 @@ PROPS["C15"] = {
 
 PROPS["C03"] = {
     "technique": "Verus step contracts on the extracted request-stream receive functions over the FrameStream contracts (unit frames) and its ghost log of frames handed out",
-    "text": "Unbounded deductive proof of step contracts from arbitrary well-formed pre-states under the documented call pattern: poll_recv_data hands out exactly the last bytes it consumed, inside a DATA payload, and lowers the payload counter by that much (with unit frames: every payload byte once, in order, never beyond the declared length, independent of chunking); of the frames taken in a call all but the last are empty DATA frames, a HEADERS frame ends the body and is kept as the trailer section, every other frame that reaches this layer is the connection error H3_FRAME_UNEXPECTED; end-of-body only at a clean end of the stream or at the trailers — never at an empty DATA frame; poll_recv_trailers: the first frame must be HEADERS, any frame after the trailer section is H3_FRAME_UNEXPECTED, a message is delivered only when the stream ended right after it, a pending wait keeps the section. First-frame rules (server accept_with_frame, client recv_response: non-HEADERS first ⇒ H3_FRAME_UNEXPECTED, FIN first ⇒ H3_REQUEST_INCOMPLETE / stream error) are in unit error_scope. Unknown frames never reach this layer and HTTP/2-reserved types arrive as ForbiddenFrame ⇒ H3_FRAME_UNEXPECTED (unit frames, [C02.stream.h2]).",
+    "text": "Unbounded deductive proof of step contracts from arbitrary well-formed pre-states under the documented call pattern: poll_recv_data hands out exactly the last bytes it consumed, inside a DATA payload, and lowers the payload counter by that much (with unit frames: every payload byte once, in order, never beyond the declared length, independent of chunking); of the frames taken in a call all but the last are empty DATA frames, a HEADERS frame ends the body and is kept as the trailer section, every other frame that reaches this layer is the connection error H3_FRAME_UNEXPECTED; end-of-body only at a clean end of the stream or at the trailers — never at an empty DATA frame; poll_recv_trailers: the first frame must be HEADERS, any frame after the trailer section is H3_FRAME_UNEXPECTED, a message is delivered only when the stream ended right after it, a pending wait keeps the section. First-frame rules on the same bodies in the same unit: server accept_with_frame — a known non-HEADERS first frame ⇒ exactly the escalation with H3_FRAME_UNEXPECTED, FIN first ⇒ stream error H3_REQUEST_INCOMPLETE and no connection error, success only for HEADERS, the handle reads on from the same frame stream; client recv_response — the first frame taken must be HEADERS, anything else ⇒ H3_FRAME_UNEXPECTED (their scoping clauses are in unit error_scope). Unknown frames never reach this layer and HTTP/2-reserved types arrive as ForbiddenFrame ⇒ H3_FRAME_UNEXPECTED (unit frames, [C02.stream.h2]).",
     "note": "FrameStream/BufList contracts are included in assume mode from the same text unit frames/buf verify; escalation modelled as escalated(code) (the connection's single outcome, C05); qpack/header callees by deterministic outcome functions; history-level language lemma (U* H U* (D U*)* (H U*)? FIN) is read off the step contracts, not mechanised.",
     "design_ref": "§4 C03",
     "trusted_base": COMMON_TB + ["unit frames / buf contracts (assumed here, proved there)", "error helper contracts ASSUMED-FROM-UNIT error_scope", "documented call pattern as precondition (recv_data until None, then recv_trailers)"],
